@@ -360,9 +360,16 @@ Definition spec (inv : bool) (P sP : Qc) (s : sig) (al be : lp) (x0 : Qc) :=
 '''
 
 
-def cases_v(items):
-    """items: list of dict(idx, kind 'model'|'eq', inv, sig(json), var, dt, point, obs(nf), ref(nf))"""
-    out = [CASES_HEAD]
+def cases_v(items, have_gen=True):
+    """items: list of dict(idx, kind 'model'|'eq', inv, sig(json), var, dt, point, obs(nf), ref(nf));
+    without the generated table (translation failed) only the textbook table is evaluated"""
+    head = CASES_HEAD
+    if not have_gen:
+        head = head.replace('Require Import Gen.FourierGen.\n', '')
+        i = head.index('Definition code ')
+        j = head.index('Definition spec ')
+        head = head[:i] + head[j:] + 'Definition code := spec.\n'
+    out = [head]
     sigdefs = {}
     rows = []
     for it in items:
@@ -639,18 +646,18 @@ def run(tier='quick', replay=None):
                 continue
             deg = set()
             for oi, (op, ro) in enumerate(zip(c['ops'], r['ops'])):
-                if op['op'] == 'fwd' and 'degenerate impulse' in (ro.get('uncanon') or ''):
+                if op['op'] == 'fwd' and (ro.get('degenerate_delta') or 'degenerate impulse' in (ro.get('uncanon') or '')):
                     deg.add(op['var'])
             for oi, op in enumerate(c['ops']):
                 if op['op'] == 'rt' and op['var'] in deg and (c['id'], oi) in op_status:
                     op_status[(c['id'], oi)]['feats'].add('degenerate_delta')
         code_bad, spec_bad, code_abs, spec_abs = set(), set(), set(), set()
-        if items and (gen_ok or all(it['kind'] == 'eq' for it in items)):
+        if items:
             shard = 150
             fns = []
             for si in range(0, len(items), shard):
                 fn = 'cases_%d.v' % (si // shard)
-                w.write(fn, cases_v(items[si:si + shard]))
+                w.write(fn, cases_v(items[si:si + shard], gen_ok))
                 fns.append(fn)
             cr = core.coqc_many(w.dir, fns, timeout=900)
             for fn in fns:
@@ -765,6 +772,8 @@ def run(tier='quick', replay=None):
             sus.sort(key=lambda f_: (-failing[(kind, f_)], f_))
             if bf:
                 key = '%s:%s' % (kind, bf)
+            elif st['state'] == 'nonfinite' and 'degenerate_delta' in st['feats']:
+                key = '%s:degenerate_delta' % kind
             elif sus:
                 key = '%s:%s' % (kind, sus[0])
             else:
@@ -775,7 +784,8 @@ def run(tier='quick', replay=None):
                 ce['theorems'] = thms
             ce['case']['ops'] = [c['ops'][oi]] if c['kind'] != 'hist' else c['ops']
             res.counterexamples.append(ce)
-            if key not in found or len(json.dumps(ce['case'].get('sig'))) < len(json.dumps(found[key]['case'].get('sig'))):
+            size = lambda e_: (e_['case'].get('kind') == 'hist', len(json.dumps(e_['case'].get('sig'))), len(e_['case'].get('expr', '')))
+            if key not in found or size(ce) < size(found[key]):
                 found[key] = ce
         if os.environ.get('C12_DEBUG'):
             dbg = []
